@@ -2,6 +2,7 @@
    This file holds only the property theorems; proofs are in Proofs_Packet.v.
    encode/parse are instantiated with the FNV-1a-64 model fnv1a. *)
 From Goloop Require Import lib.Bytes Model_Packet Proofs_Packet.
+From Goloop Require Import Link_C30.
 
 (* any sequence of well-formed packets written back to back is read back unchanged,
    and the loop then stops on a clean end of stream *)
@@ -58,3 +59,29 @@ Print Assumptions C30_parse_total.
 Theorem C30_fast_hash_agrees : forall bs, fnv1a_fast bs = fnv1a bs.
 Proof. exact fnv1a_fast_eq. Qed.
 Print Assumptions C30_fast_hash_agrees.
+
+(* ---- kernel links (Link_C30.v).  The three kernels are re-generated from
+   network/packet.go on every run (tools/go2coq); the extendInfo word of the model
+   (written by encode, split by parse) IS the bit packing of the current Go code.
+   packetDestInfo (dead code in packet.go) has no counterpart in the model ---- *)
+Theorem C30_kernel_newPacketExtendInfo : forall p, wf p ->
+  Z.of_N (extinfo p) = newPacketExtendInfo (Z.of_N (p_hint p)) (Z.of_N (lenN (p_ext p))).
+Proof. exact extinfo_is_newPacketExtendInfo_wf. Qed.
+Print Assumptions C30_kernel_newPacketExtendInfo.
+
+Theorem C30_kernel_packetExtendInfoLen : forall f,
+  Z.of_N (ext_len f) = packetExtendInfoLen (Z.of_N (be_val (skipn 8 f))).
+Proof. exact ext_len_is_packetExtendInfoLen. Qed.
+Print Assumptions C30_kernel_packetExtendInfoLen.
+
+Theorem C30_kernel_packetExtendInfoHint :
+  forall (H : bytes -> N) (R : Type) (h pl f ex : bytes) (rest rest' : R) (p : packet),
+  (be_val (skipn 8 f) < 65536)%N ->
+  assemble H h pl f ex rest = ROk p rest' ->
+  Z.of_N (p_hint p) = packetExtendInfoHint (Z.of_N (be_val (skipn 8 f))).
+Proof. exact assemble_hint_is_packetExtendInfoHint. Qed.
+Print Assumptions C30_kernel_packetExtendInfoHint.
+
+Theorem C30_kernel_params : Link_C30.kernel_params_pinned.
+Proof. exact Link_C30.kernel_params_ok. Qed.
+Print Assumptions C30_kernel_params.
